@@ -404,12 +404,39 @@ pub fn gen_cond(t: &mut Tape) -> (Vec<Node>, Vec<(String, DefVal)>) {
         nodes.push(Node::Item(Item::Label { dots: 0, name: "gtop".into() }));
         g.cur_global = Some("gtop".into());
     }
-    nodes.extend(body(t, &mut g, 4, 6));
+    // v2: a dispatch chain with many arms (`#if sel7 == 0 ... #elif sel7 == 1 ...`), the selected arm anywhere up to
+    // the last one or the #else: "exactly the first arm whose condition is true", however far down the chain it is
+    let mut dispatch = false;
+    if crate::engine::gen_version() >= 2 && t.chance(1, 6) {
+        dispatch = true;
+        let narms = t.urange(6, 18);
+        let sel = t.below(narms + 2) as u64;
+        let decl = Node::Item(Item::Const { dots: 0, name: "sel7".into(), e: lit_of(sel), noemit: false });
+        g.top.push("sel7".into());
+        let late = t.flip();
+        if !late {
+            nodes.push(decl.clone());
+        }
+        let mut arms = Vec::new();
+        for k in 0..narms {
+            let c = E::Bin(BinOp::Eq, Box::new(E::Var("sel7".into())), Box::new(lit_of(k as u64)));
+            let mut b = body(t, &mut g, 1, 2);
+            g.marker = g.marker.wrapping_add(1);
+            b.push(Node::Item(Item::Data { width: Some(8), elems: vec![lit_of(g.marker as u64)] }));
+            arms.push((c, b));
+        }
+        let else_arm = if t.flip() { Some(body(t, &mut g, 1, 2)) } else { None };
+        nodes.push(Node::If { arms, else_arm });
+        if late {
+            tail.push(decl);
+        }
+    }
+    nodes.extend(body(t, &mut g, 4, if dispatch { 3 } else { 6 }));
     nodes.extend(tail);
     // defines
     let mut defs = Vec::new();
     for _ in 0..t.weighted(&[3, 3, 2, 1, 1]) {
-        let name = t.pick(&["c0", "c1", "c2", "c3", "c4", "cfg.dbg", "cfg.lvl", "nosuch", "cfg.nosuch"]).to_string();
+        let name = if dispatch && t.chance(1, 3) { "sel7".to_string() } else { t.pick(&["c0", "c1", "c2", "c3", "c4", "cfg.dbg", "cfg.lvl", "nosuch", "cfg.nosuch"]).to_string() };
         if defs.iter().any(|d: &(String, DefVal)| d.0 == name) {
             continue;
         }
@@ -528,6 +555,11 @@ impl Property for C16 {
         let render = || json!({"source": src, "defines": cli});
         ctx.render(render);
         let world = select_world(&nodes, &defs);
+        if src.contains("#elif sel7 == 10") {
+            ctx.label("dispatch-chain:11-arms-or-more");
+        } else if src.contains("#if sel7 == 0") {
+            ctx.label("dispatch-chain:up-to-10-arms");
+        }
         let model = match &world {
             World::Reject(r) if r.starts_with("unspecified") => {
                 ctx.skipped = true;
